@@ -79,10 +79,83 @@ def esc(s):
     return '"' + s.replace("\\", "\\\\").replace('"', '\\"').replace("\n", "\\n") + '"'
 
 
+def ops_design(rng, hist):
+    """the operator grid: one flat module whose outputs are single operators applied to operands of every form the
+    emitter treats specially when it shortens operands — plain signals of both signednesses, literals (every value of
+    small widths: repeated top bits, all ones, zero), operands whose top nets coincide (`Cat(x, x[-1])`, sign
+    extensions), zero-width operands — with the operand forms crossed per operator"""
+    from amaranth.hdl import Signal, Module, ClockDomain, Const, Cat, signed, unsigned
+    from .. import gen_hier
+    import operator as O
+    b = gen_hier.Built()
+    m = Module()
+    cd = ClockDomain("sync")
+    m.domains += cd
+    b.domains = [("sync", cd, "pos", "sync")]
+    au = Signal(unsigned(rng.randint(1, 6)), name="au", init=rng.randint(0, 1))
+    as_ = Signal(signed(rng.randint(1, 6)), name="as", init=-1)
+    n = Signal(unsigned(rng.randint(1, 3)), name="n")
+    ns = Signal(signed(rng.randint(1, 3)), name="ns")
+    ins = [au, as_, n, ns]
+
+    def operand(kind):
+        if kind == "sig":
+            return rng.choice(ins)
+        if kind == "const":
+            w = rng.randint(0, 4)
+            sg = rng.random() < 0.4 and w > 0
+            v = rng.randint(-(1 << (w - 1)), (1 << (w - 1)) - 1) if sg else (rng.randint(0, (1 << w) - 1) if w else 0)
+            return Const(v, signed(w) if sg else unsigned(w))
+        if kind == "dup":
+            x = rng.choice(ins)
+            return Cat(x, x[-1]) if rng.random() < 0.6 else Cat(x, x[-1], x[-1])
+        if kind == "dup_s":
+            x = rng.choice(ins)
+            return Cat(x, x[-1]).as_signed()
+        if kind == "ext":
+            x = rng.choice(ins)
+            return (x + Const(0, signed(1) if x.shape().signed else unsigned(1)))   # widened by one position
+        return Const(0, unsigned(0))
+    kinds = ["sig", "sig", "const", "const", "dup", "dup_s", "ext", "empty"]
+    binops = [("+", O.add), ("-", O.sub), ("*", O.mul), ("//", O.floordiv), ("%", O.mod), ("==", O.eq), ("!=", O.ne),
+              ("<", O.lt), ("<=", O.le), (">", O.gt), (">=", O.ge), ("&", O.and_), ("|", O.or_), ("^", O.xor),
+              ("<<", O.lshift), (">>", O.rshift), (">>", O.rshift)]
+    pool = list(ins)
+    roles = ["input"] * len(ins)
+    for k in range(rng.randint(6, 14)):
+        name, fn = rng.choice(binops)
+        ka, kb = rng.choice(kinds), rng.choice(kinds)
+        a, bb = operand(ka), operand(kb)
+        if name in ("<<", ">>"):
+            if bb.shape().signed:
+                bb = bb.as_unsigned()
+            if name == "<<" and len(bb) > 3:
+                bb = bb[:3]
+        try:
+            e = fn(a, bb)
+        except Exception:
+            continue
+        hist[f"grid:{name}:{'s' if a.shape().signed else 'u'}{'s' if bb.shape().signed else 'u'}:{ka}/{kb}"] = 1
+        o = Signal(e.shape(), name=f"o{k}")
+        if rng.random() < 0.8:
+            m.d.comb += o.eq(e)
+        else:
+            m.d.sync += o.eq(e)
+        pool.append(o); roles.append("driven")
+    b.top, b.pool, b.mem_obs = m, pool, []
+    b.ports = [s for s in pool] + [cd.clk, cd.rst]
+    b.has_f9 = b.has_f25 = b.has_dup_tf = False
+    b.n_leaves = len(pool) - len(ins)
+    b.foreign, b.inputs, b.ioports, b.roles, b.ranges = [], ins, [], roles, {}
+    return b
+
+
 def build(seed, opts, drop=frozenset()):
     from .. import gen_hier as gen_design
     rng = random.Random(seed)
     hist = {}
+    if opts.get("ops_grid"):
+        return ops_design(rng, hist), hist, rng
     b = gen_design.gen_design(rng, hist, instances=False, iobufs=False, all_ports=True, drop=drop, **opts)
     return b, hist, rng
 
@@ -156,7 +229,7 @@ def design_case(seed, opts, n_events=None, drop=frozenset(), events=None):
     from amaranth.hdl import Fragment
     from amaranth.back import rtlil
     case = {"seed": seed, "opts": opts,
-            "stream": "f9" if opts.get("allow_f9") else "f25" if opts.get("allow_f25") else "dup_tf" if opts.get("dup_tf") else "main"}
+            "stream": "ops" if opts.get("ops_grid") else "f9" if opts.get("allow_f9") else "f25" if opts.get("allow_f25") else "dup_tf" if opts.get("dup_tf") else "main"}
     try:
         b1, hist, _ = build(seed, opts, drop)
         b2, _h, rng = build(seed, opts, drop)
@@ -485,7 +558,7 @@ def run(chk):
     n_side = 60 if quick else 800
     base = dict(memories=True, layouts=True)
     plan = [(n_main, dict(base)), (n_side, dict(base, allow_f9=True)), (n_side, dict(base, allow_f25=True)),
-            (n_side, dict(base, dup_tf=True))]
+            (n_side, dict(base, dup_tf=True)), (2 * n_side, dict(ops_grid=True))]
     args = []
     for n, opts in plan:
         seeds = [rng.getrandbits(48) for _ in range(n)]
